@@ -25,7 +25,8 @@ EXTENDS Naturals, Sequences, FiniteSets, Bitwise, TLC
 
 CONSTANTS Bug,
           Fmts,            \* set of format names exercised
-          CaseSet,         \* function: format -> sequence of sets of [content, env, regs]
+          CaseSet,         \* function: format -> sequence of sets of case parameters
+          MkCase(_, _),    \* (format, parameters) -> [content, env, regs]: the concrete case
           MaxCorrupt,      \* number of byte corruptions the environment may apply
           CorruptPos,      \* function: format -> set of 1-based positions in region 0
           CorruptVals      \* set of byte values
@@ -274,8 +275,9 @@ Init == /\ phase = "fmt" /\ fmt = "" /\ content = <<>> /\ env = <<>> /\ regs = <
 PickFmt(f) == /\ phase = "fmt" /\ f \in Fmts
               /\ phase' = "case" /\ fmt' = f
               /\ UNCHANGED <<content, env, regs, pend, wrote, lib, obs, pc, ncor>>
-PickCase(c) == /\ phase = "case"
-               /\ phase' = "run" /\ content' = c.content /\ env' = c.env /\ regs' = c.regs
+PickCase(p) == /\ phase = "case"
+               /\ LET c == MkCase(fmt, p) IN content' = c.content /\ env' = c.env /\ regs' = c.regs
+               /\ phase' = "run"
                /\ lib' = Lib0(fmt) /\ obs' = Obs0(fmt)
                /\ UNCHANGED <<fmt, pend, wrote, pc, ncor>>
 
